@@ -10,6 +10,7 @@ import MstVerif.Model.SipHash
 import MstVerif.Model.Traverse
 import MstVerif.Model.Diff
 import MstVerif.Model.Sync
+import MstVerif.Model.DiffDepth
 import Std.Data.HashMap
 
 namespace Mst.Driver
@@ -229,6 +230,14 @@ def step (st : St) (line : String) : St × String :=
       match st.lists[a]?, st.lists[b]? with
       | some la, some lb =>
         (st, match diff la lb with | .ok r => showDRs r | .error _ => "panic")
+      | _, _ => (st, "bad-op")
+    | _, _ => (st, "bad-op")
+  | ["ldepth", a, b] =>
+    match a.toNat?, b.toNat? with
+    | some a, some b =>
+      match st.lists[a]?, st.lists[b]? with
+      | some la, some lb =>
+        (st, match diffDepth la lb with | .ok d => toString d | .error _ => "panic")
       | _, _ => (st, "bad-op")
     | _, _ => (st, "bad-op")
   | ["diff", a, b] =>
